@@ -32,12 +32,6 @@ def showOkStr : Option Str → String
 def showIds (ids : List Nat) : String :=
   if ids.isEmpty then "-" else String.intercalate "," (ids.map toString)
 
-def parseNatList (w : String) : Option (List Nat) :=
-  if w == "-" then some [] else
-  (w.splitOn ",").foldr (fun part acc => match acc, part.toNat? with
-    | some l, some n => some (n :: l)
-    | _, _ => none) (some [])
-
 def sampleIds (ids : List Nat) (samples : List Nat) : Option (List Nat) :=
   let arr := ids.toArray
   samples.foldr (fun i acc => match acc, arr[i]? with
